@@ -418,6 +418,47 @@ func init() {
 			}
 			pcs = append(pcs, baseCase("c02-valid", schema, docs, "format-values", f))
 		}
+		// a member with a valid default AND a constraint its Go zero value violates: the documents that omit it (or give
+		// null) are valid and must be accepted — at the top, nested, and in array items
+		zeroHostile := map[string]sgen.M{
+			"int-min":      {"type": "integer", "default": 8080, "minimum": 1},
+			"int-xmin":     {"type": "integer", "default": 5, "exclusiveMinimum": 0},
+			"num-max-neg":  {"type": "number", "default": -5, "maximum": -1},
+			"num-xmax":     {"type": "number", "default": -0.5, "exclusiveMaximum": 0},
+			"str-minlen":   {"type": "string", "default": "localhost", "minLength": 1},
+			"str-pattern":  {"type": "string", "default": "https", "pattern": "^a|^https$"},
+			"int-multiple": {"type": "integer", "default": 6, "multipleOf": 3, "minimum": 3},
+			"arr-minitems": {"type": "array", "items": sgen.M{"type": "integer"}, "default": []any{1, 2}, "minItems": 1},
+		}
+		for _, zn := range core.SortedKeys(zeroHostile) {
+			member := func() sgen.M { return sgen.DeepCopy(zeroHostile[zn]).(sgen.M) }
+			if zn == "str-pattern" {
+				m := member()
+				m["pattern"] = "^abc$"
+				m["default"] = "abc"
+				zeroHostile[zn] = m
+			}
+			obj := func() sgen.M {
+				return sgen.M{"type": "object", "properties": sgen.M{"v": member(), "name": sgen.M{"type": "string"}}, "required": []any{"name"}}
+			}
+			present := zeroHostile[zn]["default"]
+			inner := []any{M{"name": "a"}, M{"name": "a", "v": nil}, M{"name": "a", "v": present}}
+			schemas := map[string]struct {
+				s    sgen.M
+				wrap func(v any) any
+			}{
+				"top":    {obj(), func(v any) any { return v }},
+				"nested": {sgen.M{"type": "object", "properties": sgen.M{"o": obj()}}, func(v any) any { return M{"o": v} }},
+				"items":  {sgen.M{"type": "object", "properties": sgen.M{"a": sgen.M{"type": "array", "items": obj()}}}, func(v any) any { return M{"a": []any{v, M{"name": "b"}}} }},
+			}
+			for _, pn := range core.SortedKeys(schemas) {
+				var docs []any
+				for _, d := range inner {
+					docs = append(docs, schemas[pn].wrap(sgen.DeepCopy(d)))
+				}
+				pcs = append(pcs, baseCase("c02-valid", schemas[pn].s, docs, "default-and-zero-hostile-constraint", zn, pn))
+			}
+		}
 		// integer intervals with ONE exclusive side around every type edge, with and without --min-sized-ints: the two
 		// extreme admitted values (and two inside) are valid documents
 		for _, e := range []int64{126, 127, 128, 254, 255, 256, 32766, 32767, 32768, 65534, 65535, 65536, 2147483647, 2147483648, 4294967295, 4294967296} {
@@ -544,6 +585,19 @@ func init() {
 			{"array-of-integers", M{"type": "array", "items": M{"type": "integer"}, "default": []any{1, 2, 3}}, []any{4}},
 			{"array-of-numbers", M{"type": "array", "items": M{"type": "number"}, "default": []any{1.5}}, []any{2.5, 3}},
 		}
+		// integer defaults at the edges of the narrow types --min-sized-ints chooses (run WITH the flag: name prefix "ms-")
+		cases = append(cases,
+			dcase{"ms-uint64-2^63-default", M{"type": "integer", "minimum": 0, "default": json.Number("9223372036854775808")}, 7},
+			dcase{"ms-uint64-near-max-default", M{"type": "integer", "minimum": 0, "default": json.Number("18446744073709549568")}, 7},
+			dcase{"ms-uint64-2^53-default", M{"type": "integer", "minimum": 0, "default": json.Number("9007199254740992")}, 7},
+			dcase{"ms-uint8-max-default", M{"type": "integer", "minimum": 0, "maximum": 255, "default": 255}, 7},
+			dcase{"ms-int8-min-default", M{"type": "integer", "minimum": -128, "maximum": 127, "default": -128}, 7},
+			dcase{"ms-uint16-default", M{"type": "integer", "minimum": 0, "maximum": 65535, "default": 40000}, 7},
+			dcase{"ms-int32-min-default", M{"type": "integer", "minimum": -2147483648, "maximum": 2147483647, "default": -2147483648}, 7},
+			dcase{"ms-uint32-max-default", M{"type": "integer", "minimum": 0, "maximum": 4294967295, "default": 4294967295}, 7},
+			dcase{"ms-int64-default", M{"type": "integer", "maximum": 100, "default": -9007199254740992}, 7},
+			dcase{"ms-array-of-small-integers", M{"type": "array", "items": M{"type": "integer", "minimum": -5, "maximum": 300}, "default": []any{-5, 300}}, []any{4}},
+		)
 		var pcs []*core.PCase
 		for _, dc := range cases {
 			for _, withSibling := range []bool{false, true} {
@@ -564,7 +618,9 @@ func init() {
 					return m
 				}
 				docs := []any{mk(M{}), mk(M{"v": nil}), mk(M{"v": dc.other})}
-				pcs = append(pcs, baseCase("c09-defaults", schema, docs, dc.name))
+				pc := baseCase("c09-defaults", schema, docs, dc.name)
+				pc.Cfg.MinSizedInts = strings.HasPrefix(dc.name, "ms-")
+				pcs = append(pcs, pc)
 			}
 		}
 		// two schema nodes that ask for the same Go type name and differ ONLY in their defaults: each position must
